@@ -1,8 +1,9 @@
 """C20 — journaling observes without interfering and always restores the classes (DESIGN.md 5/C20).
 
-Model: lean/IrVerif/Model/Journal.lean (class method table, Journal.__enter__/__exit__, the four
-wrapper factories, nested journals, an abstract semantics of instrumented operations that call
-each other through the table).  Theorems: lean/IrVerif/Props/C20.lean.
+Model: lean/IrVerif/Model/Journal.lean (class method table, Journal.__enter__ with its re-entry guard,
+__exit__, the four wrapper factories including the point where `details` is evaluated, nested
+journals, an abstract semantics of instrumented operations that call each other through the table).
+Theorems: lean/IrVerif/Props/C20.lean.
 
 What this file does on every run
 * correspondence (model vs /repo):
@@ -11,16 +12,22 @@ What this file does on every run
   - `journal.ctl`: flat sequences of raw `__enter__`/`__exit__` calls (properly nested or not,
     re-entry, exit of a never-entered journal) — class table decoded from the real function
     objects (wrapper layers per slot, which journal made each layer, which original is at the
-    bottom), current journal, previous links, captured tables, after every step;
+    bottom), current journal, previous links, captured tables, active flags, refusals, after every
+    step;
   - `journal.run`: random public-API histories inside 0-3 nested journals with `try` blocks and
-    exceptions.  The call tree of the *original* functions is observed with `sys.monitoring` in
-    an un-journaled run and given to the model as the script of what the originals do; the model
-    then predicts, for the journaled run: outcome of every operation, the order in which the
-    originals execute, every journal's entries (operation + object), final table and current
-    journal.  Compared with the real journaled run.
+    exceptions.  The call tree of the *original* functions is observed with `sys.monitoring`
+    (independent of the wrappers) and given to the model as the script of what the originals do;
+    the model then predicts: outcome of every operation, the exception leaving the history, the
+    order in which the originals execute relative to enter/exit, every journal's entries
+    (operation + object), final table / current journal / active flags.  Compared with the real
+    journaled run;
+  - `bad-repr`: histories in which a user object's repr raises, so that a wrapper's `details`
+    expression raises: the model, told which details expressions raise (found by evaluating the
+    real details lambdas in an un-journaled probing run), must predict the real journaled run.
 * oracle (the property itself on the real objects, independent of the model):
   - transparent: un-journaled vs journaled run of the same history: results, exception types,
-    executed originals, complete IR snapshots;
+    executed originals (call trees), complete IR snapshots;
+  - DetailsOk: no details expression raises on any state reached by the history;
   - entries: each journal's entries = the calls that executed while it was entered (methods and
     setters when called, constructors when they return), in order, right class name, weak ref
     to the right object;
@@ -28,7 +35,7 @@ What this file does on every run
     object it was before the `with` (function identity; fget/fset/fdel/doc for properties; no
     attribute added to or removed from any class), `get_current_journal()` is back;
   - no strong reference: with all journals' entries alive, dropping the IR objects lets every one
-    of them die (gc + weakref).
+    of them die (gc + weakref); a journal receives no entry after it was left.
 """
 from __future__ import annotations
 
@@ -73,8 +80,8 @@ THEOREMS = [
 ]
 ASSUMPTIONS = [
     "DetailsOk: the wrappers' `details` expressions (repr of arguments, getattr(self, '_name')) do not raise, "
-    "and evaluating them does not change IR state: hypothesis of C20_transparent / C20_entries, tested by the "
-    "oracle over the generated histories (it fails for Node(..., graph=g): known finding D70), not proved",
+    "and evaluating them does not change IR state: hypothesis of C20_transparent / C20_entries; checked on the "
+    "real details lambdas in a probing run of every generated history (that is how D70 was found), not proved",
     "no hooks registered on the journal (Journal.add_hook); a hook runs user code inside record()",
     "instrumented constructors return None (checked on every traced call)",
     "wrappers consume no recursion depth (a RecursionError could come earlier inside a journal)",
@@ -149,7 +156,7 @@ class Real:
         layers = []
         while True:
             code = getattr(fn, "__code__", None)
-            if code in self.wrapper_codes:
+            if code in self.wrapper_codes and len(layers) < 64:
                 cells = dict(zip(code.co_freevars, (c.cell_contents for c in fn.__closure__)))
                 jr = cells["journal"]
                 layers.append(next((i for i, x in enumerate(journals) if x is jr), -1))
@@ -179,7 +186,15 @@ class Real:
         return bad
 
     def repair(self) -> None:
-        self.W.restore_ir_classes(self.BASE)
+        """Puts every patched attribute back (written here, independent of restore_ir_classes)."""
+        for key, fn in self.BASE.items():
+            parts = key.split(".")
+            cls = getattr(self.core, parts[0], None) or getattr(self.gc_, parts[0])
+            if parts[-1] == "fset":
+                _c, name, fget, fdel, doc = self.props[key]
+                setattr(cls, name, property(fget, fn, fdel, doc))
+            else:
+                setattr(cls, parts[1], fn)
         self.J._current_journal = None
 
 
@@ -1556,9 +1571,25 @@ def _shard(args):
     process_cases(part, cases, "random-reentry")
     # random flat enter/exit sequences, longer than the exhaustive scope
     seqs = []
-    for _ in range(max(4, n_cases // 4)):
+    for _ in range(max(4, n_cases // 8)):
         seqs.append([{"j": rng.randrange(3), "enter": rng.random() < 0.55} for _ in range(rng.randint(5, 9))])
     ctl_stream(part, seqs, 3, "ctl-random")
+    # properly nested ones (depth <= 3, journals reused in sequence)
+    seqs = []
+    for _ in range(max(4, n_cases // 8)):
+        st, evs = [], []
+        for _ in range(rng.randint(2, 12)):
+            free = [j for j in range(3) if j not in st]
+            if st and (not free or rng.random() < 0.5):
+                evs.append({"j": st.pop(), "enter": False})
+            else:
+                j = rng.choice(free)
+                st.append(j)
+                evs.append({"j": j, "enter": True})
+        while st:
+            evs.append({"j": st.pop(), "enter": False})
+        seqs.append(evs)
+    ctl_stream(part, seqs, 3, "ctl-nested")
     return part
 
 
@@ -1585,7 +1616,7 @@ def run(ctx: Ctx) -> None:
     ctx.exhaustive_scopes.append("nesting depth 0-3 x exception thrown at no level / each level x thrown by user code / by a rejected IR operation")
     # random histories, sharded
     shards = 16
-    per = ctx.pick(40, 500)
+    per = ctx.pick(60, 1500)
     parts = pmap(_shard, [(f"{ctx.seed}:{i}", per, max(2, per // 10)) for i in range(shards)])
     for p in parts:
         ctx.merge(p)
